@@ -93,6 +93,50 @@ func verifLinkDone(c *linkerContext) {
 				})
 			}
 			f["parts"] = parts
+			f["wrapperPart"] = -1
+			if repr.Meta.WrapperPartIndex.IsValid() {
+				f["wrapperPart"] = int(repr.Meta.WrapperPartIndex.GetIndex())
+			}
+			if file.IsEntryPoint() {
+				// what the entry point exports: per alias the file/name of the binding it
+				// resolves to, the parts declaring it and the re-export statements passed
+				// on the way (independent of the dependencies of the entry point part)
+				f["entryPart"] = -1
+				if repr.Meta.EntryPointPartIndex.IsValid() {
+					f["entryPart"] = int(repr.Meta.EntryPointPartIndex.GetIndex())
+				}
+				entryExports := []interface{}{}
+				for _, alias := range repr.Meta.SortedAndFilteredExportAliases {
+					export := repr.Meta.ResolvedExports[alias]
+					targetSourceIndex := export.SourceIndex
+					targetRef := export.Ref
+					reExports := []interface{}{}
+					targetRepr, ok := c.graph.Files[targetSourceIndex].InputFile.Repr.(*graph.JSRepr)
+					if !ok {
+						continue
+					}
+					if importData, ok := targetRepr.Meta.ImportsToBind[targetRef]; ok {
+						for _, re := range importData.ReExports {
+							reExports = append(reExports, []int{int(re.SourceIndex), int(re.PartIndex)})
+						}
+						targetSourceIndex = importData.SourceIndex
+						targetRef = importData.Ref
+						targetRepr = c.graph.Files[targetSourceIndex].InputFile.Repr.(*graph.JSRepr)
+					}
+					decl := []interface{}{}
+					for _, partIndex := range targetRepr.TopLevelSymbolToParts(targetRef) {
+						decl = append(decl, []int{int(targetSourceIndex), int(partIndex)})
+					}
+					entryExports = append(entryExports, map[string]interface{}{
+						"alias":     alias,
+						"file":      int(targetSourceIndex),
+						"name":      c.graph.Symbols.Get(targetRef).OriginalName,
+						"decl":      decl,
+						"reExports": reExports,
+					})
+				}
+				f["entryExports"] = entryExports
+			}
 			records := []interface{}{}
 			for _, record := range repr.AST.ImportRecords {
 				target := -1
